@@ -30,6 +30,7 @@ type GenOpts struct {
 	Yield      bool // add scheduling noise to bodies
 	SeqNoBody  bool // sequential registrations never publish from their body (documented deadlock)
 	CtxBody    float64 // probability that a body starts by cancelling / sampling one of the contexts
+	Sleep      int  // async handler bodies may sleep up to this many microseconds (keeps work in flight)
 	ChainPub   bool // registrations of the first type may publish events of the other types from their body
 }
 
@@ -87,6 +88,9 @@ func (g GenOpts) subOp(rnd *rand.Rand, types []string, depth int) Op {
 			k = "ctxerr"
 		}
 		o.Body = append(o.Body, Op{Op: k, Ctx: pick(rnd, g.Ctxs)})
+	}
+	if g.Sleep > 0 && o.Async && rnd.IntN(2) == 0 {
+		o.Body = append(o.Body, Op{Op: "sleep", Yield: 50 + rnd.IntN(g.Sleep)})
 	}
 	if g.Yield && rnd.IntN(3) == 0 {
 		o.Body = append([]Op{{Op: "yield", Yield: 1 + rnd.IntN(3)}}, o.Body...)
